@@ -57,7 +57,13 @@ func checkC12(c *Ctx) {
 	// R3: the Add, the comparison, the reset
 	var add *ssa.Call
 	nAdd := 0
-	eachInstr(rf, func(in ssa.Instruction) {
+	body := m.bodyFns(rf)
+	eachBody := func(fn func(in ssa.Instruction)) {
+		for _, g := range body {
+			eachInstr(g, fn)
+		}
+	}
+	eachBody(func(in ssa.Instruction) {
 		if call, ok := in.(*ssa.Call); ok {
 			if fld, meth, ok := m.atomicCall(call); ok && fld == m.HealthCounter && meth == "Add" {
 				add = call
@@ -75,7 +81,7 @@ func checkC12(c *Ctx) {
 	c.check(isC && n == 1 && unhealthy, "R3", "unhealthy result increments the counter by one", add, "Add(%d); on the Check()==false edge: %v", n, unhealthy)
 
 	var cmp *ssa.If
-	eachInstr(rf, func(in ssa.Instruction) {
+	eachInstr(add.Parent(), func(in ssa.Instruction) {
 		if ifi, ok := in.(*ssa.If); ok {
 			l := m.litOf(ifi.Cond, true, ifi)
 			if l.S.Op == "bin" && (l.S.Args[0].V == ssa.Value(add) || l.S.Args[1].V == ssa.Value(add)) {
@@ -106,27 +112,31 @@ func checkC12(c *Ctx) {
 	demotes := m.edgeDemotesAndExits(cmp.Block(), demoteEdge)
 	c.check(demotes, "R3", "demotion exactly at the threshold", cmp, "count >= threshold leads to a demotion and the loop's return: %v", demotes)
 	// below the threshold: next tick without a store operation
-	isTick := func(b *ssa.BasicBlock) bool {
-		for _, in := range b.Instrs {
-			if s, ok := in.(*ssa.Select); ok && s.Blocking {
-				return true
+	var bad ssa.Instruction
+	m.explore(cmp.Block(), 1-demoteEdge, 0, func(in ssa.Instruction, flag int) (int, bool) {
+		if s, ok := in.(*ssa.Select); ok && s.Blocking {
+			return flag, true // the next tick
+		}
+		if _, ok := m.isKVCall(valueOf(in), ""); ok || m.spawnsStoreOp(in) {
+			if bad == nil {
+				bad = in
+			}
+			return flag, true
+		}
+		if call, ok := in.(*ssa.Call); ok {
+			if g := call.Call.StaticCallee(); g != nil && m.isLib(g) && m.reachesStoreOp(g) && !m.mayDemote(g, specFor(call, g), 0) {
+				if bad == nil {
+					bad = in
+				}
+				return flag, true
 			}
 		}
-		return false
-	}
-	bad := reachAvoid(cmp.Block(), 1-demoteEdge, func(in ssa.Instruction) bool {
-		if _, ok := m.isKVCall(valueOf(in), ""); ok {
-			return true
-		}
-		if m.spawnsStoreOp(in) {
-			return true
-		}
-		return false
-	}, isTick)
+		return flag, false
+	}, nil)
 	c.check(bad == nil, "R3", "unhealthy tick skips the refresh", cmp, "store operation reachable before the next tick: %v (%s)", bad != nil, c.posOf(bad))
 	// healthy edge resets
 	reset := false
-	eachInstr(rf, func(in ssa.Instruction) {
+	eachBody(func(in ssa.Instruction) {
 		if call, ok := in.(*ssa.Call); ok {
 			if fld, v, ok := m.atomicStore(call); ok && fld == m.HealthCounter {
 				if k, isC := constInt(v); isC && k == 0 {
@@ -149,6 +159,7 @@ func checkC12(c *Ctx) {
 		}
 		break
 	}
+	tv = m.traceValue(tv)
 	got := m.Gated(tv)
 	if ph, ok := tv.(*ssa.Phi); ok && inLoop(ph.Block()) {
 		// the threshold is computed before the loop and carried through it unchanged
